@@ -61,6 +61,8 @@ class Gen:
         self.open, self.done = [], []
         self.multi = 0
         self.base = values.Gen(r)
+        self.scalars = []        # scalars produced so far: equal-but-distinct leaves are reused on purpose
+        self.keypool = {}        # family -> keys produced so far (the same key in several mappings)
 
     def keys(self, family, k):
         r = self.r
@@ -71,9 +73,16 @@ class Gen:
                 return
             seen.append(pyval)
             out.append(rc)
+            if rc[0] != 'tuple' and len(self.keypool[family]) < 12:
+                self.keypool[family].append((rc, pyval))
+        pool = self.keypool.setdefault(family, [])
         for _ in range(k * 2):
             if len(out) >= k:
                 break
+            if pool and r.random() < 0.3:
+                rc, pv = r.choice(pool)
+                add(list(rc), pv)
+                continue
             if family == 'str':
                 s = r.choice(KEY_STRS)
                 add(['str', s], s)
@@ -123,7 +132,11 @@ class Gen:
             if pool:
                 return ['ref', r.choice(pool)]
         if depth >= self.maxdepth or (x < 0.4 and depth > 0):
-            return self.base.scalar()
+            if self.scalars and r.random() < 0.2:
+                return list(r.choice(self.scalars))
+            sc = self.base.scalar()
+            self.scalars.append(sc)
+            return sc
         cid = self.n
         self.n += 1
         self.open.append(cid)
